@@ -88,7 +88,7 @@ class Check:
             timeout_ms = 60000 if self.tier == 'quick' else 300000
         flt = os.environ.get('VERIF_JOBS')
         if flt:
-            jobs = [j for j in jobs if re.search(flt, j['name'])]
+            jobs = [j for j in jobs if re.search(flt, j['name']) or j['name'].startswith('diff-')]
         for j in jobs:
             j.setdefault('opt', {}).setdefault('max_wall_s', 150 if self.tier == 'quick' else 3600)
         spec = {'dir': dir, 'patterns': patterns, 'overlay': overlay, 'jobs': jobs, 'workers': workers,
@@ -403,6 +403,107 @@ func TestVerifReplay(t *testing.T) {
 }
 ''' % (pkgname, call)
     open(dst, 'w').write(txt)
+
+
+def _batch_test_file(pkgname, func, args, dst):
+    call = '%s(%s)' % (func, ', '.join(str(a) for a in args))
+    txt = '''package %s
+
+import (
+	"fmt"
+	"strings"
+	"testing"
+)
+
+func TestVerifBatch(t *testing.T) {
+	for _, b := range vLoadBatch() {
+		vDraws, vPos, vFailures, vObs, vExhausted = b.Draws, 0, nil, nil, false
+		aborted := false
+		func() {
+			defer func() {
+				if r := recover(); r != nil {
+					if _, ok := r.(vAbort); ok {
+						aborted = true
+						return
+					}
+					vFailures = append(vFailures, "panic")
+				}
+			}()
+			%s
+		}()
+		if aborted {
+			fmt.Printf("RUN %%d ABORT\\n", b.Run)
+			continue
+		}
+		fmt.Printf("RUN %%d OBS %%s FAILED %%d\\n", b.Run, strings.Join(vObs, ","), len(vFailures))
+	}
+}
+''' % (pkgname, call)
+    open(dst, 'w').write(txt)
+
+
+def differential(check, job, ctx, runs=100):
+    """Engine-vs-native differential: the harness runs in the engine on
+    pseudo-random concrete draws (values seeded by VERIF_SEED) and natively on
+    the same draws; observations (vObserve) and pass/fail must agree."""
+    j = dict(job)
+    j['name'] = 'diff-' + job['name']
+    j['opt'] = dict(job.get('opt') or {})
+    j['opt'].update({'concrete_runs': runs, 'concrete_seed': check.seed})
+    first = len(check.jobs)
+    out = check.engine(ctx['dir'], [job['pkg']], ctx.get('overlay') or {}, [j], ctx=ctx)
+    res = (out.get('jobs') or [None])[0]
+    check.jobs = check.jobs[:first]  # differential runs are not part of the symbolic exploration
+    if res is None:
+        check.inconclusive.append('differential run of %s did not start' % job['name'])
+        return 0
+    cruns = [r for r in (res.get('concrete_runs') or []) if not r['aborted']]
+    if not cruns:
+        return 0
+    d = tempfile.mkdtemp(prefix='diff.', dir=check.scratch)
+    bf = os.path.join(d, 'batch.json')
+    json.dump([{'run': r['run'], 'draws': r['draws']} for r in cruns], open(bf, 'w'))
+    env = dict(GOENV)
+    env['VERIF_REPLAY_BATCH'] = bf
+    if ctx.get('replay') == 'repo_pkg':
+        rel, pkgname = ctx['rel'], ctx['pkgname']
+        repl = {}
+        for i, h in enumerate(ctx['harness_files']):
+            repl[os.path.normpath(os.path.join(REPO, rel, 'zz_verif_h%d.go' % i))] = h
+        for p in _intr_native(pkgname, d):
+            repl[os.path.normpath(os.path.join(REPO, rel, os.path.basename(p)))] = p
+        tf = os.path.join(d, 'zz_verif_batch_test.go')
+        _batch_test_file(pkgname, job['func'], job['args'], tf)
+        repl[os.path.normpath(os.path.join(REPO, rel, 'zz_verif_batch_test.go'))] = tf
+        ov = os.path.join(d, 'overlay.json')
+        json.dump({'Replace': repl}, open(ov, 'w'))
+        rc, outp = sh(['go', 'test', '-v', '-vet=off', '-count=1', '-run', 'TestVerifBatch', '-overlay', ov, './' + rel if rel != '.' else '.'], cwd=REPO, env=env, timeout=900)
+    else:
+        nat = native_module(check, os.path.dirname(ctx['pkgdir'].rstrip('/')))
+        pd = os.path.join(nat, os.path.basename(ctx['pkgdir'].rstrip('/')))
+        tf = os.path.join(pd, 'zz_verif_batch_test.go')
+        _batch_test_file(ctx['pkgname'], job['func'], job['args'], tf)
+        rc, outp = sh(['go', 'test', '-v', '-vet=off', '-count=1', '-run', 'TestVerifBatch', '.'], cwd=pd, env=env, timeout=900)
+        os.remove(tf)
+    native = {}
+    for line in outp.splitlines():
+        m = re.match(r'RUN (\d+) (ABORT|OBS (\S*) FAILED (\d+))', line)
+        if m:
+            native[int(m.group(1))] = None if m.group(2) == 'ABORT' else (m.group(3), int(m.group(4)))
+    agree = 0
+    for r in cruns:
+        n = native.get(r['run'])
+        e = (','.join(r.get('obs') or []), len(r.get('failed') or []))
+        if n is None:
+            check.inconclusive.append('differential %s run %d: native run aborted or missing (engine did not): %s' % (job['name'], r['run'], outp[-300:]))
+            break
+        if n[0] != e[0] or (n[1] > 0) != (e[1] > 0):
+            check.inconclusive.append('ENGINE/NATIVE DISAGREEMENT in %s run %d: engine obs=%s failed=%d, native obs=%s failed=%d' % (job['name'], r['run'], e[0][:80], e[1], n[0][:80], n[1]))
+            break
+        agree += 1
+    check.traces_validated += agree
+    check.extra['differential_runs'] = check.extra.get('differential_runs', 0) + agree
+    return agree
 
 
 def _judge(body, rc, out):
